@@ -216,6 +216,34 @@ func RunC03(cfg simrt.Config, o world.Opts) *world.Result {
 	}
 	h := world.NewHasher()
 	s.Inline(func() {
+		// pre-history: other inputs decoded first in the same process, so that whatever an
+		// earlier (often failing) decode left in the pooled readers and lazy containers is
+		// there when the input under test is decoded
+		if simrt.Flip("c03.prehistory", 0.3) {
+			n := 1 + ch("c03.prehistory-n", 2)
+			for i := 0; i < n; i++ {
+				pt, pb, pdesc, _ := genInput2(genOpts{maxDepth: 3})
+				var po outcome
+				if ch("c03.prehistory-kind", 2) == 0 {
+					po = raDecode(pb, wire.Type(pt), simio.Plan{TruncAt: -1, ErrAt: -1})
+				} else {
+					po = stDecode(pb, wire.Type(pt), simio.Plan{TruncAt: -1, ErrAt: -1})
+				}
+				logf("pre-history %d: decode as %s, %d bytes (%s): %x -> %s", i, ref.TypeName(pt), len(pb), pdesc, clip(pb, 48), po)
+				res.Count("c03.prehistory-decodes", 1)
+				if !po.ok {
+					res.Count("c03.prehistory-failed-decodes", 1)
+				}
+				if po.panic != "" {
+					res.Failf("C03/panic", "decode panicked on %x as %s: %s", clip(pb, 64), ref.TypeName(pt), first(po.panic, 500))
+					return
+				}
+				if po.budget {
+					res.Failf("C03/budget", "decode exceeded %d reader calls on %d bytes", budgetFor(len(pb)), len(pb))
+					return
+				}
+			}
+		}
 		t, b, desc, class := genInput2(genOpts{maxDepth: 3, allowBig: true})
 		wt := wire.Type(t)
 		// the value may start at a non-zero position of the underlying reader
